@@ -214,12 +214,45 @@ func runFanout(rc *RunCtx, o fanOpts) {
 	if o.small {
 		maxP = 3
 	}
+	rebinds := 0
 	nOps := tp.Choose(maxP+3, "nhist")
 	pipeIDs := []string{"p0", "p1", "p2", "p3"}
 	for i := 0; i < nOps; i++ {
 		typ := types[tp.Choose(len(types), "ptype")]
 		pid := pipeIDs[tp.Choose(maxP, "pid")]
-		switch tp.Choose(8, "histop") {
+		switch tp.Choose(10, "histop") {
+		case 9: // a registered pipeline is registered again with exactly the node list it has
+			ps := model.pipesOfType(typ)
+			if len(ps) == 0 {
+				continue
+			}
+			mp := ps[tp.Choose(len(ps), "which-pipeline")]
+			nids := make([]el.NodeID, len(mp.nodeIDs))
+			for j, x := range mp.nodeIDs {
+				nids[j] = el.NodeID(x)
+			}
+			err := broker.RegisterPipeline(el.Pipeline{PipelineID: el.PipelineID(mp.id), EventType: el.EventType(typ), NodeIDs: nids})
+			ok := model.RegisterPipeline(typ, mp.id, append([]string{}, mp.nodeIDs...), "", false)
+			desc.History = append(desc.History, fmt.Sprintf("RegisterPipeline(%s,%s,%v) [identical] err=%v", typ, mp.id, mp.nodeIDs, err))
+			if (err == nil) != ok {
+				rc.Failf(rc.Prop+".setup", "register-pipeline", "identical re-registration of %s/%s: real err=%v model ok=%v", typ, mp.id, err, ok)
+				return
+			}
+			simrt.Probe("history.identical-reregistration")
+		case 8: // a node id is bound to a NEW node object of the same kind: pipelines registered from now on use it
+			pn := all[tp.Choose(len(all), "rebind")]
+			rebinds++
+			n := &recNode{Label: fmt.Sprintf("%s'%d", pn.id, rebinds), Kind: pn.kind, h: h}
+			n.beh = genBehaviours(tp, pn.kind)
+			err := broker.RegisterNode(el.NodeID(pn.id), n)
+			ok := model.RegisterNode(pn.id, n, "", false)
+			desc.History = append(desc.History, fmt.Sprintf("RegisterNode(%s) [new object %s: %s] err=%v", pn.id, n.Label, behString(n.beh), err))
+			if (err == nil) != ok {
+				rc.Failf(rc.Prop+".setup", "register-node", "re-binding node id %s: real err=%v model ok=%v", pn.id, err, ok)
+				return
+			}
+			pn.obj = n
+			simrt.Probe("history.node-rebound")
 		case 7: // removals that are refused (unknown ids, nodes in use): nothing may change, nothing may stay locked
 			switch tp.Choose(4, "refusedkind") {
 			case 0:
@@ -547,8 +580,15 @@ func runFanout(rc *RunCtx, o fanOpts) {
 		for _, t := range types {
 			for _, p := range model.pipesOfType(t) {
 				nids := make([]el.NodeID, len(p.nodeIDs))
+				unchanged := true
 				for j, x := range p.nodeIDs {
 					nids[j] = el.NodeID(x)
+					if cur, ok := model.nodes[x]; !ok || cur.obj != p.objs[j] {
+						unchanged = false // the id was re-bound since: registering again WOULD change the pipeline
+					}
+				}
+				if !unchanged {
+					continue
 				}
 				defs = append(defs, el.Pipeline{PipelineID: el.PipelineID(p.id), EventType: el.EventType(t), NodeIDs: nids})
 			}
@@ -720,7 +760,7 @@ func runFanout(rc *RunCtx, o fanOpts) {
 				}
 				continue
 			}
-			checkStatus(rc, s, pipes, chains, cancelled, thr[s.Type], thrChanges)
+			checkStatus(rc, s, pipes, chains, cancelled, thr[s.Type], thrChanges, h.recs)
 		}
 	}
 	if len(sends) > 0 && sim.NumTasks() > len(sends)+nClients {
@@ -777,7 +817,7 @@ func subMultiset(a, b map[string]int) bool {
 
 func sameMultiset(a, b map[string]int) bool { return subMultiset(a, b) && subMultiset(b, a) }
 
-func checkStatus(rc *RunCtx, s *fanSend, pipes []*mPipe, chains [][]expStep, cancelled bool, thr [2]int, changes []thrChange) {
+func checkStatus(rc *RunCtx, s *fanSend, pipes []*mPipe, chains [][]expStep, cancelled bool, thr [2]int, changes []thrChange, recs []nodeRec) {
 	expComplete := map[string]int{}
 	expSinks := map[string]int{}
 	var expErrs []error
@@ -800,19 +840,28 @@ func checkStatus(rc *RunCtx, s *fanSend, pipes []*mPipe, chains [][]expStep, can
 	gotC := multiset(s.status.Complete())
 	gotS := multiset(s.status.CompleteSinks())
 	// warnings must be errors really returned by nodes during this Send
-	for _, w := range s.status.Warnings {
-		if w == nil || !strings.Contains(w.Error(), fmt.Sprintf("for S%d", s.ID)) || !strings.HasPrefix(w.Error(), "injected error #") {
-			rc.Failf("C02.invented-warning", "", "Send#%d: warning %v was not returned by any node during this Send", s.ID, w)
+	// (identity, not text: the very error values the nodes returned, each at most once)
+	returned := map[error]int{}
+	for _, r := range recs {
+		if r.Err != nil && (r.InLin == fmt.Sprintf("S%d", s.ID) || strings.HasPrefix(r.InLin, fmt.Sprintf("S%d>", s.ID))) {
+			returned[r.Err]++
 		}
 	}
-	seenW := map[string]int{}
 	for _, w := range s.status.Warnings {
-		if w != nil {
-			seenW[w.Error()]++
-			if seenW[w.Error()] > 1 {
-				rc.Failf("C02.duplicate-warning", "", "Send#%d: warning %v reported twice", s.ID, w)
-			}
+		if w == nil {
+			rc.Failf("C02.invented-warning", "nil", "Send#%d: a nil warning", s.ID)
+			continue
 		}
+		if returned[w] == 0 {
+			class := ""
+			if _, seen := returned[w]; seen {
+				rc.Failf("C02.duplicate-warning", "", "Send#%d: warning %q (%T) reported more often than nodes returned it", s.ID, w, w)
+				continue
+			}
+			rc.Failf("C02.invented-warning", class, "Send#%d: warning %q (%T) is not an error value that a node returned during this Send (returned: %v)", s.ID, w, w, returned)
+			continue
+		}
+		returned[w]--
 	}
 	if !cancelled {
 		if !sameMultiset(gotC, expComplete) {
